@@ -943,7 +943,7 @@ pub fn run(ctx: &RunCtx) -> i32 {
     let meta = CheckMeta {
         property: "C19",
         level: "fault_enumeration",
-        rule: "s3s-fs behind S3Service::call in a scratch root, previous state of the key absent / present, one fault per run. Uploads of n in 1..12 frames (1 B..300 KB): transport error instead of frame k (every k in the thorough tier; first/middle/last in most quick groups), client stall before frame k followed by dropping the request future, request future dropped after p polls (p = 1..48; polls 300 us apart so that blocking file-system work proceeds), wrong checksum of each algorithm the backend verifies (CRC32, CRC32C, SHA-1, SHA-256; right checksums as controls), chunk-signed upload with a corrupted signature in chunk k or cut short after chunk k (intact upload as control). CopyObject with a missing source or abandoned after p polls; CompleteMultipartUpload naming a missing part, parts out of order, or abandoned after p polls. After each run a GET of the key must return: the previous content (or absence) if the write was answered with an error; the previous or the complete new content if it was abandoned; the complete new content if it was acknowledged; and the root must hold no .tmp.* file. Concurrency: 2..8 writers (uploads with Pending schedules; in half of the rounds also CopyObject from distinct sources) with distinct contents (2 KB..2 MB) to one key on an 8-thread runtime with 1..3 concurrent readers; the stored content must be exactly one acknowledged writer's bytes, every overlapping read must return the previous state or one writer's complete bytes, and no temporary file may remain. A cell is (fault, previous state, position, outcome, state after).".into(),
+        rule: "s3s-fs behind S3Service::call in a scratch root, previous state of the key absent / present, one fault per run. Uploads of n in 1..12 frames (1 B..300 KB): transport error instead of frame k (every k in the thorough tier; first/middle/last in most quick groups), client stall before frame k followed by dropping the request future, request future dropped after p polls (p = 1..48; polls 300 us apart so that blocking file-system work proceeds), wrong checksum of each algorithm the backend verifies (CRC32, CRC32C, SHA-1, SHA-256; right checksums as controls), chunk-signed upload with a corrupted signature in chunk k or cut short after chunk k (intact upload as control). CopyObject with a missing source or abandoned after p polls; CompleteMultipartUpload naming a missing part, parts out of order, or abandoned after p polls. After each run a GET of the key must return: the previous content (or absence) if the write was answered with an error; the previous or the complete new content if it was abandoned; the complete new content if it was acknowledged; and the root must hold no .tmp.* file. Concurrency: 2..8 writers (uploads with Pending schedules; in half of the rounds also CopyObject from distinct sources) with distinct contents (2 KB..2 MB) to one key on an 8-thread runtime with 1..3 concurrent readers; the stored content must be exactly one acknowledged writer's bytes, every overlapping read must return the previous state or one writer's complete bytes, and no temporary file may remain. In-flight leg: 1..3 uploads held open while 0..8 or a round number (100/256/1000/1024 + 1/8) of other writes (good, failing in transit, wrong checksum, delete, copy) complete on the same FileSystem; before every overwrite and at the end each key holds exactly what its last acknowledged write stored; no temporary file remains. A cell is (fault, previous state, position, outcome, state after).".into(),
         assumptions: vec![
             "a crash is SIGKILL of the serving process on entering the k-th system call of the write (child under strace), followed by FileSystem::new on the same root; durability across power loss (fsync ordering) is not observable here".into(),
             "system-call faults (EIO, ENOSPC, EACCES) are injected on the calls that touch the object's content (temporary file, destination, part files), not on the metadata / checksum side files".into(),
